@@ -250,6 +250,7 @@ class Interp:
         self.feas_timeout_ms = feas_timeout_ms
         self.paths_pruned = 0
         self._raise_frames: List[List[St]] = [[]]
+        self._obl_names: Dict[str, int] = {}
         self.str_hook: Optional[Callable] = None      # (receiver str, method name, args, kwargs) -> token; default: "<str>"
         self.builtins = {"print": Noop(), "len": sym_len, "abs": abs, "min": min, "max": max, "range": range,
                          "isinstance": isinstance, "tuple": tuple, "list": list, "int": int, "float": float,
@@ -275,7 +276,10 @@ class Interp:
         return z3.Int(nm) if sort == "int" else z3.Real(nm)
 
     def oblige(self, st: St, name: str, goal, meta=None):
-        self.obls.append(Obl(f"{self.tag}/{name}", st.pc, goal, meta))
+        full = f"{self.tag}/{name}"
+        n = self._obl_names.get(full, 0) + 1
+        self._obl_names[full] = n
+        self.obls.append(Obl(full if n == 1 else f"{full}#{n}", st.pc, goal, meta))
 
     def feasible(self, st: St, extra=None) -> bool:
         s = z3.Solver()
